@@ -74,6 +74,17 @@ CorridorAxisAccept(rm, rs, axis, n, fitH, fitV, zeroRadius) ==
   /\ (zeroRadius => M = LL /\ S = LL)
   /\ \A p \in S : InAxisBox(p, axis, n, fitH, fitV)
 
+\* Long segments in general position (thousands of voxels).  The walk abstraction is too costly there, so
+\* the harness measures, per returned voxel, whether the segment meets the voxel's box (in longitude,
+\* latitude, altitude, box widened by 0.2 %): `off` lists the voxels it does not meet.  It hands the result
+\* over ordered by progress along the segment; a connected chain then has every voxel adjacent to one of
+\* the three before it (ties in progress may come in any order).
+LineLongAccept(r, endp, off) ==
+  /\ Cardinality(Range(r)) = Len(r)
+  /\ <<0, 0, 0>> \in Range(r) /\ endp \in Range(r)
+  /\ off = <<>>
+  /\ \A i \in 2..Len(r) : \E j \in MaxOf(1, i - 3)..(i - 1) : Adj26(r[i], r[j])
+
 \* The layer fit (FitClearanceAroundExtendedSpatialID): the number of voxels to step away, east-west
 \* (first result) and north-south (second result), until the gap between the voxel and its shifted
 \* copy is at least the clearance.  gaps[n] is the harness-measured gap (WGS84 chord, integer units)
